@@ -95,8 +95,9 @@ let ty_of (name : string) (c : curve) (sm : bool) : ty =
   | "threshold" -> TThreshold | "unanimity" -> TUnanimity | "cnf" -> TCnf
   | "hierarchical" -> THierarchical | "boolexpr" -> TBoolexpr
   | "msp" -> TMsp c | "kwshare" | "feldmanshare" -> TKwShare c | "feldmanlifted" -> TLifted c
-  | "feldmanvv" | "pedersenvv" -> TFeldmanVV c | "basepublic" -> TBasePublic c | "baseshard" -> TBaseShard (c, sm)
-  | "ecdsasig" -> TEcdsaSig c | "dkls23partialsig" -> TDklsPartial c | "matrix" -> TMatrix c | "sqmatrix" -> TSqMatrix c | "mvmatrix" -> TMvMatrix c
+  | "feldmanvv" | "pedersenvv" -> TFeldmanVV c | "basepublic" -> TBasePublic c | "baseshard" | "dkls23shard" | "schnorrshard" -> TBaseShard (c, sm)
+  | "ecdsasig" -> TEcdsaSig c | "dkls23partialsig" -> TDklsPartial c
+  | "pedersenshare" -> TPedShare c | "pedersenlifted" -> TPedLifted c | "matrix" -> TMatrix c | "sqmatrix" -> TSqMatrix c | "mvmatrix" -> TMvMatrix c
   | "nat" -> TNat | "int" -> TInt | "natplus" -> TNatPlus
   | "scalar" -> TScalar c | "point" -> TPoint c
   | _ -> TGeneric
